@@ -58,18 +58,37 @@ func validateJSONPatches(patches []byte) error {
 			return fmt.Errorf("%s: path not found", patch.JSONPatch)
 		}
 
-		var path string
-		if err := json.Unmarshal(*pathMsg, &path); err != nil {
-			return fmt.Errorf("%s: invalid path", patch.JSONPatch)
+		if err := validateJSONPointer(pathMsg, "path"); err != nil {
+			return err
 		}
 
-		if strings.HasPrefix(path, "/"+document.ServiceProperty) {
-			return fmt.Errorf("%s: cannot modify services", patch.JSONPatch)
+		// 'move' and 'copy' also read (and 'move' removes) the location given in 'from'
+		if fromMsg, ok := p["from"]; ok {
+			if err := validateJSONPointer(fromMsg, "from"); err != nil {
+				return err
+			}
 		}
+	}
 
-		if strings.HasPrefix(path, "/"+document.PublicKeyProperty) {
-			return fmt.Errorf("%s: cannot modify public keys", patch.JSONPatch)
-		}
+	return nil
+}
+
+func validateJSONPointer(msg *json.RawMessage, member string) error {
+	if msg == nil {
+		return fmt.Errorf("%s: invalid %s", patch.JSONPatch, member)
+	}
+
+	var pointer string
+	if err := json.Unmarshal(*msg, &pointer); err != nil {
+		return fmt.Errorf("%s: invalid %s", patch.JSONPatch, member)
+	}
+
+	if strings.HasPrefix(pointer, "/"+document.ServiceProperty) {
+		return fmt.Errorf("%s: cannot modify services", patch.JSONPatch)
+	}
+
+	if strings.HasPrefix(pointer, "/"+document.PublicKeyProperty) {
+		return fmt.Errorf("%s: cannot modify public keys", patch.JSONPatch)
 	}
 
 	return nil
